@@ -281,9 +281,9 @@ def run_repo_tests(ctx, files=None, kind='reader'):
     d = tempfile.mkdtemp(prefix='verif_rec_')
     try:
         out = os.path.join(d, 'rec.json')
-        env = dict(os.environ, VERIF_REC_OUT=out, PYTHONPATH=common.VERIF + ':/repo', PYTHONHASHSEED='0')
+        env = dict(os.environ, VERIF_REC_OUT=out, PYTHONPATH=common.VERIF + ':' + os.environ.get('VERIF_REPO', '/repo'), PYTHONHASHSEED='0')
         cmd = ['/venv/bin/python', '-m', 'pytest', '-q', '-p', 'no:cacheprovider', '-p', 'harness.pytest_recorder'] + \
-            [os.path.join('/repo/test', f) for f in (files or [''])]
+            [os.path.join(os.environ.get('VERIF_REPO', '/repo'), 'test', f) for f in (files or [''])]
         p = subprocess.run(cmd, cwd=d, env=env, capture_output=True, text=True, timeout=1800)
         if not os.path.exists(out):
             raise common.MachineryError('recording run of the repository tests produced no traces:\n' + p.stdout[-1500:])
